@@ -1,10 +1,15 @@
-use dashu_float::{round::mode, Context, Repr};
-use dashu_int::IBig;
+use dashu_int::{IBig, UBig};
+use dashu_ratio::{RBig, Relaxed};
+use num_order::NumHash;
+use std::collections::hash_map::DefaultHasher;
+use std::hash::Hasher;
+fn h<T: NumHash>(t: &T) -> u64 { let mut s = DefaultHasher::new(); t.num_hash(&mut s); s.finish() }
 fn main() {
-    let c = Context::<mode::HalfAway>::new(3);
-    let x = Repr::<3>::new(IBig::from(10460353202u64), -18);
-    println!("powi = {:?}", c.powi(&x, 12.into()));
-    let w = Context::<mode::HalfAway>::new(9);
-    println!("sqr = {:?}", w.sqr(&x));
-    println!("mul = {:?}", w.mul(&x, &x));
+    let m = IBig::from(i128::MAX);
+    let r = Relaxed::from_parts(IBig::from(3) * &m, UBig::from(5u8) * UBig::try_from(m.clone()).unwrap());
+    let q = RBig::from_parts(IBig::from(3), UBig::from(5u8));
+    println!("relaxed {} rbig {} equal {}", h(&r), h(&q), h(&r) == h(&q));
+    let r2 = Relaxed::from_parts(IBig::from(-3) * &m * &m, UBig::from(5u8) * UBig::try_from(m.clone()).unwrap());
+    let q2 = RBig::from_parts(IBig::from(-3) * &m, UBig::from(5u8));
+    println!("relaxed {} rbig {} equal {}", h(&r2), h(&q2), h(&r2) == h(&q2));
 }
